@@ -39,4 +39,52 @@ class C01(BridgeBase):
         return super().match_known(finding, failure)
 
 
-CHECK = C01()
+class C01Faults(BridgeBase):
+    """Single-fault enumeration: fault-free base histories are driven once to count the collaborator calls of every
+    step (dry run through the proxies); then every (step, k) with 1 <= k <= calls(step) becomes its own history."""
+    pid = "C01"
+    prefixes = ("C01.",)
+    mc = []
+    gens = [Gen("SkywayBridgeGen", "SkywayBridgeGen_funds_nofault_sim", "simulate", num=300, depth=10, tiers=("quick",), cap=150),
+            Gen("SkywayBridgeGen", "SkywayBridgeGen_funds_nofault_sim", "simulate", num=3000, depth=10, tiers=("thorough",), cap=1500)]
+    quick_cap = 6000
+    thorough_cap = 80000
+
+    def expand_histories(self, hs, tier):
+        import copy
+        ev = self.drive(hs)
+        calls = {}
+        for e in ev:
+            if e["i"] > 0:
+                calls[(e["h"], e["i"])] = e.get("calls", 0)
+        out = []
+        self.fault_points = 0
+        for h, steps in enumerate(hs):
+            for i, st in enumerate(steps):
+                n = calls.get((h, i + 1), 0)
+                if "k" not in (st.get("args") or {}):
+                    continue
+                for k in range(1, n + 1):
+                    v = copy.deepcopy(steps)
+                    v[i]["args"]["k"] = k
+                    out.append(v)
+                    self.fault_points += 1
+        return out
+
+    def extra_coverage(self, tier):
+        return {"single_fault_histories": getattr(self, "fault_points", 0),
+                "fault_enumeration": "every collaborator call (bank / evm proxies) of every Send, Cancel and EndBlock step of the fault-free base histories, one fault per history"}
+
+    def nontrivial(self, evs):
+        return any(e.get("fired") for e in evs)
+
+
+from pipeline import Multi
+
+
+class C01All(Multi):
+    pid = "C01"
+    parts = [C01(), C01Faults()]
+
+
+CHECK = C01All()
